@@ -611,21 +611,20 @@ def start_vector_case(ctx, rng, terms, expect, aux=False):
         internal = obj._ppc["internal"] if ppc is not None and "internal" in ppc else None
     except Exception:
         internal = None
-    # the ppci keeps the in-service, connected buses in ppc order: recover the set from the isolated / out-of-service info
-    isolated = set(int(i) for i in np.atleast_1d(obj.get("_isolated_buses", [])))
+    # the lookup captured in front of the solver is already in ppci numbering (pd2ppc.py _ppc2ppci: the rows that take part
+    # come first, in ppc order; switched-off / isolated rows are numbered behind them): a bus takes part iff its number is
+    # below the size of the ppci
     lookup = cap["lookup"]
-    kept = [bool(obj.bus.at[b, "in_service"]) and int(lookup[b]) not in isolated for b in bus_ids]
+    kept = [0 <= int(lookup[b]) < cap["nppci"] for b in bus_ids]
     aux_rows = []
     if aux:
-        # auxiliary buses follow the buses of the bus table in the ppc, kind by kind (build_bus.py:430-440); one is kept iff its
-        # ppc row is not switched off (bus type NONE)
+        # auxiliary buses follow the buses of the bus table in the ppc, kind by kind (build_bus.py:430-440)
         pos = {b: j for j, b in enumerate(bus_ids)}
         for t, col in (("xward", "bus"), ("trafo3w", "hv_bus")):
             if len(obj[t]) == 0:
                 continue
             for j, i in enumerate(obj[t].index):
-                row = int(lookup[int(cap["aux"][t][j])])
-                kp = int(cap["ppc_type"][row]) != int(NONE)
+                kp = 0 <= int(lookup[int(cap["aux"][t][j])]) < cap["nppci"]
                 setv = float(obj.xward.at[i, "vm_pu"]) if (t == "xward" and bool(obj.xward.at[i, "in_service"])) else None
                 aux_rows.append((prev_aux[t].vm_internal_pu.at[i], prev_aux[t].va_internal_degree.at[i], pos[int(obj[t].at[i, col])], setv, kp))
     if sum(kept) + sum(1 for a in aux_rows if a[4]) != cap["nppci"]:
